@@ -1,4 +1,161 @@
-import Mav.Spec.Msg
+import Mav.Proofs.Codec2
+import Mav.Gen.MsgsAll
+/-
+  C04 — message round trip, truncation, extensions. Property theorems only.
+  Model: Mav/Model/Msg.lean (`ReadWriter.Write` = encode, `ReadWriter.Read` = decode), for ANY message layout `rw` whose sizes
+  agree with its fields (`RWok`: true of every layout `Initialize` produces for a message of at most 255 bytes; checked for
+  the 408 shipped definitions by C03.shipped_layout_agrees and on every run by the harness). All theorems are for every
+  layout, every value assignment and every payload, not for the shipped types only.
+  Not in Lean: that the decoder never writes to the caller's buffer (Go slice aliasing) — decided by the harness on poisoned
+  backing arrays.
+-/
 namespace Mav.C04
-theorem placeholder : True := trivial
+open Mav Msg
+
+/-- **C04 (fails only with an error, never a panic).** Every payload, of any length, in both versions. -/
+theorem decode_never_panics (rw : RW) (hok : RWok rw) (isV2 : Bool) (payload : Bytes) : decode rw isV2 payload ≠ .panic := by
+  cases isV2 with
+  | true =>
+    rw [decode_v2_eq]
+    obtain ⟨v, hv⟩ := decFields_some rw.fields (padded rw payload) (zeroVals rw) (by rw [hok.ext]; exact padded_len rw payload)
+    rw [hv]; simp [resOf]
+  | false =>
+    simp only [decode, Bool.false_eq_true, if_false]
+    split
+    · simp
+    · rename_i hl
+      obtain ⟨v, hv⟩ := decFields_some (rw.fields.filter (fun f => !f.isExt)) payload (zeroVals rw)
+        (by rw [hok.base]; simp at hl; omega)
+      rw [hv]; simp [resOf]
+
+/-- **C04 (v1 accepts only the exact base payload length).** -/
+theorem v1_exact_length (rw : RW) (payload : Bytes) :
+    decode rw false payload = .errSize ↔ payload.length ≠ rw.sizeNormal.toNat := by
+  simp only [decode, Bool.false_eq_true, if_false]
+  constructor
+  · intro h hl
+    simp only [hl, ne_eq, not_true_eq_false, if_false] at h
+    cases hd : decFields (rw.fields.filter (fun f => !f.isExt)) payload (zeroVals rw) <;> simp [hd, resOf] at h
+  · intro h; simp [h]
+
+/-- **C04 (any number of zero bytes appended).** -/
+theorem zero_extension_invariant (rw : RW) (hok : RWok rw) (p : Bytes) (k : Nat) :
+    decode rw true (p ++ replicateZ k) = decode rw true p := by
+  rw [decode_v2_take rw hok, decode_v2_take rw hok, take_padded_append_zeros]
+
+/-- **C04 (any number of trailing zero bytes removed).** Two payloads that differ by trailing zeros decode alike. -/
+theorem zero_truncation_invariant (rw : RW) (hok : RWok rw) (p q : Bytes) (j k : Nat) (h : p ++ replicateZ j = q ++ replicateZ k) :
+    decode rw true p = decode rw true q := by
+  rw [← zero_extension_invariant rw hok p j, h, zero_extension_invariant rw hok q k]
+
+/-- **C04 (unknown trailing bytes are ignored).** -/
+theorem trailing_bytes_ignored (rw : RW) (hok : RWok rw) (p extra : Bytes) (h : rw.sizeExtended.toNat ≤ p.length) :
+    decode rw true (p ++ extra) = decode rw true p := by
+  rw [decode_v2_take rw hok, decode_v2_take rw hok]
+  have h1 : padded rw (p ++ extra) = p ++ extra := by unfold padded; rw [if_neg (by simp; omega)]
+  have h2 : padded rw p = p := by unfold padded; rw [if_neg (by omega)]
+  rw [h1, h2, List.take_append_of_le_length h]
+
+/-- **C04 (the encoder strips trailing zeros, never below one byte).** -/
+theorem strip_shape (buf : Bytes) : (∃ k, buf = removeEmptyBytes buf ++ replicateZ k) ∧ (buf ≠ [] → 1 ≤ (removeEmptyBytes buf).length) :=
+  ⟨strip_is_zero_suffix buf, strip_nonempty buf⟩
+
+/-- … and what it strips does not change what is decoded -/
+theorem stripped_decodes_alike (rw : RW) (hok : RWok rw) (full : Bytes) :
+    decode rw true (removeEmptyBytes full) = decode rw true full := by
+  obtain ⟨k, hk⟩ := strip_is_zero_suffix full
+  conv => rhs; rw [hk]
+  exact (zero_extension_invariant rw hok _ k).symm
+
+/-- every field's value has the shape of the field -/
+def WellTyped (rw : RW) (vals : List FVal) : Prop := ∀ f ∈ rw.fields, wellTyped f (valAt vals f.index) = true
+
+/-- canonical form of a whole message in version 2: every field set to the canonical form of its value -/
+def canonV2 (rw : RW) (vals : List FVal) : List FVal :=
+  rw.fields.foldl (fun a f => setAt a f.index (canonF f (valAt vals f.index))) (zeroVals rw)
+
+/-- … in version 1: base fields only, extension fields stay at their zero value -/
+def canonV1 (rw : RW) (vals : List FVal) : List FVal :=
+  (rw.fields.filter (fun f => !f.isExt)).foldl (fun a f => setAt a f.index (canonF f (valAt vals f.index))) (zeroVals rw)
+
+/-- **C04 (round trip, version 2).** For every layout and every well-typed value assignment: the encoder succeeds, and decoding
+    what it produced — trailing zeros stripped — returns the canonical form (numbers reduced to their wire width, floats being
+    bit patterns untouched, strings cut at the declared length or the first NUL). -/
+theorem roundtrip_v2 (rw : RW) (hok : RWok rw) (vals : List FVal) (hw : WellTyped rw vals) :
+    ∃ p, encode rw true vals = .ok p ∧ decode rw true p = .ok (canonV2 rw vals) := by
+  have hfl : (rw.fields.filter (fun f => true || !f.isExt)) = rw.fields := by simp
+  have hlen := flatMap_len vals rw.fields hw
+  refine ⟨removeEmptyBytes (rw.fields.flatMap (fun f => encField f (valAt vals f.index))), ?_, ?_⟩
+  · simp only [encode, if_true, hfl]
+    rw [if_pos (by rw [hlen, hok.ext])]
+  · rw [stripped_decodes_alike rw hok, decode_v2_eq]
+    have hp : padded rw (rw.fields.flatMap (fun f => encField f (valAt vals f.index))) =
+        rw.fields.flatMap (fun f => encField f (valAt vals f.index)) := by
+      unfold padded; rw [if_neg (by rw [hlen, hok.ext]; omega)]
+    rw [hp]
+    have := decFields_encode vals rw.fields [] (zeroVals rw) hw
+    rw [List.append_nil] at this
+    rw [this]; rfl
+
+/-- **C04 (round trip, version 1).** Extension fields are not sent and come back as zero. -/
+theorem roundtrip_v1 (rw : RW) (hok : RWok rw) (vals : List FVal) (hw : WellTyped rw vals) :
+    ∃ p, encode rw false vals = .ok p ∧ p.length = rw.sizeNormal.toNat ∧ decode rw false p = .ok (canonV1 rw vals) := by
+  have hw' : ∀ f ∈ rw.fields.filter (fun f => !f.isExt), wellTyped f (valAt vals f.index) = true :=
+    fun f hf => hw f (List.mem_filter.mp hf).1
+  have hfl : (rw.fields.filter (fun f => false || !f.isExt)) = rw.fields.filter (fun f => !f.isExt) := by simp
+  have hlen := flatMap_len vals _ hw'
+  refine ⟨(rw.fields.filter (fun f => !f.isExt)).flatMap (fun f => encField f (valAt vals f.index)), ?_, by rw [hlen, hok.base], ?_⟩
+  · simp only [encode, Bool.false_eq_true, if_false, hfl]
+    rw [if_pos (by rw [hlen, hok.base])]
+  · simp only [decode, Bool.false_eq_true, if_false]
+    rw [if_neg (by rw [hlen, hok.base]; simp)]
+    have := decFields_encode vals (rw.fields.filter (fun f => !f.isExt)) [] (zeroVals rw) hw'
+    rw [List.append_nil] at this
+    rw [this]; rfl
+
+/-- the canonical form is a fixed point: re-encoding what was decoded gives the same bytes (floats bit for bit) -/
+theorem canon_idempotent_num (f : DField) (xs : List UInt64) (h : xs.length = nElems f) :
+    canonF f (canonF f (.num xs)) = canonF f (.num xs) := by
+  have hm : ∀ x, maskW (width f) (maskW (width f) x) = maskW (width f) x := by
+    intro x
+    unfold maskW
+    split
+    · apply UInt64.toBitVec_inj.mp; simp [BitVec.and_assoc]
+    · split
+      · apply UInt64.toBitVec_inj.mp; simp [BitVec.and_assoc]
+      · split
+        · apply UInt64.toBitVec_inj.mp; simp [BitVec.and_assoc]
+        · rfl
+  have htake : xs.take (nElems f) = xs := by rw [← h]; exact List.take_length
+  simp only [canonF, htake, FVal.num.injEq]
+  have hl : (xs.map (maskW (width f))).take (nElems f) = xs.map (maskW (width f)) := by
+    rw [← h]; exact List.take_of_length_le (by simp)
+  rw [hl, List.map_map]
+  apply List.map_congr_left
+  intro x _; exact hm x
+
+/-- non-vacuity: a two-field layout (uint16 then a 3-byte string), values with bits above the width and an over-long string -/
+def demoRW : RW :=
+  { fields := [{ isEnum := false, ftype := .uint16, name := "a", arrayLength := 0, isArray := false, index := 1, isExt := false, goIsArray := false, goArrLen := 0 },
+               { isEnum := false, ftype := .char, name := "s", arrayLength := 3, isArray := true, index := 0, isExt := false, goIsArray := false, goArrLen := 0 }],
+    sizeNormal := 5, sizeExtended := 5, crcExtra := 0, nfields := 2 }
+
+example : RWok demoRW := rwOk_of_bool _ (by decide)
+
+/-- **C04 (the theorems apply to every shipped message type).** For each of the 408 message structs of the 19 shipped dialects
+    (regenerated from the source on every run), the layout `Initialize` computes satisfies the hypothesis `RWok`. -/
+theorem shipped_layouts_ok : ∀ m ∈ Gen.allMsgs, ∃ rw, Msg.init m.2.2 = .ok rw ∧ RWok rw := by
+  intro m hm
+  have h := Gen.all_layout
+  rw [List.all_eq_true] at h
+  have := h m hm
+  unfold layoutAgrees at this
+  split at this
+  · rename_i rw d h1 h2
+    simp only [Bool.and_eq_true] at this
+    exact ⟨rw, h1, rwOk_of_bool rw this.2⟩
+  · cases this
+example : encode demoRW true [.str [65, 66, 0, 67], .num [0x12345]] = .ok [0x45, 0x23, 65, 66] ∧
+    decode demoRW true [0x45, 0x23, 65, 66] = .ok [.str [65, 66], .num [0x2345]] := by decide
+
 end Mav.C04
